@@ -186,6 +186,7 @@ def oracle(hist, obs, fixok):
     live = set()
     live_ok = set()  # the subset whose mocking call returned normally: these must be restored by Cancel/Reset
     used_ph = set()
+    has_when = set() # keys whose mocker already owns a When: Return/When on them only edit that object, they do not patch
     sticky = {}      # (builder, via, target) -> placeholder: Origin() stays configured on a mocker until it is cancelled
     for i, st in enumerate(steps):
         if i >= len(parts) - 1:
@@ -203,15 +204,20 @@ def oracle(hist, obs, fixok):
             live = {e for e in live if e[0] != st[1]}
             live_ok = {e for e in live_ok if e[0] != st[1]}
             sticky = {k: v for k, v in sticky.items() if k[0] != st[1]}
+            has_when = {k for k in has_when if k[0] != st[1]}
         elif st[0] == 'c':
             restored = {int(st[3])} if (st[1], st[2], int(st[3])) in live_ok else set()
             live.discard((st[1], st[2], int(st[3])))
             live_ok.discard((st[1], st[2], int(st[3])))
             sticky.pop((st[1], st[2], int(st[3])), None)
+            has_when.discard((st[1], st[2], int(st[3])))
         else:
             t = int(st[3])
             live.add((st[1], st[2], t))
-            if res == 'ok':
+            patches = st[0] == 'a' or (st[1], st[2], t) not in has_when
+            if st[0] in 'rw':
+                has_when.add((st[1], st[2], t))
+            if res == 'ok' and patches:
                 live_ok.add((st[1], st[2], t))
             if len(st) > 5:
                 used_ph.add(int(st[5]))
